@@ -52,6 +52,9 @@ Lower(in, T) == CASE Region(in, T) = "heat" -> LET a == Add(in.c, Mul(Heat(in).b
 Upper(in, T) == CASE Region(in, T) = "heat" -> Add(in.c, Mul(Heat(in).beta, Sub(Heat(in).flat, T)))
                   [] Region(in, T) = "cool" -> Add(in.c, Mul(Cool(in).beta, Sub(T, Cool(in).flat)))
                   [] OTHER -> in.c
+\* the asymptote itself (not clamped at the base load): the straight line with the fitted slope through the stored balance point
+AsymLine(in, T) == IF Region(in, T) = "heat" THEN Add(in.c, Mul(Heat(in).beta, Sub(Heat(in).asym, T)))
+                   ELSE IF Region(in, T) = "cool" THEN Add(in.c, Mul(Cool(in).beta, Sub(T, Cool(in).asym))) ELSE in.c
 Exact(in, T) == Eq(Lower(in, T), Upper(in, T))         \* unsmoothed side, or the flat part
 
 Clauses(in, out) ==
@@ -72,9 +75,9 @@ Clauses(in, out) ==
      \* the order-relation form of "asymptotically a straight line with the fitted slope": the gap above the asymptote never grows outwards
      <<"GapToTheAsymptoteShrinksOutwards", ok => \A i \in 1..(n - 1) :
             /\ (Region(in, in.probes[i]) = "heat" /\ Region(in, in.probes[i + 1]) = "heat") =>
-                  Le(Sub(R(out.rows[i].fl), Mul(Lower(in, in.probes[i]), R(S))), Sub(R(out.rows[i + 1].ce), Mul(Lower(in, in.probes[i + 1]), R(S))))
+                  Le(Sub(R(out.rows[i].fl), Mul(AsymLine(in, in.probes[i]), R(S))), Sub(R(out.rows[i + 1].ce), Mul(AsymLine(in, in.probes[i + 1]), R(S))))
             /\ (Region(in, in.probes[i]) = "cool" /\ Region(in, in.probes[i + 1]) = "cool") =>
-                  Le(Sub(R(out.rows[i + 1].fl), Mul(Lower(in, in.probes[i + 1]), R(S))), Sub(R(out.rows[i].ce), Mul(Lower(in, in.probes[i]), R(S))))>>,
+                  Le(Sub(R(out.rows[i + 1].fl), Mul(AsymLine(in, in.probes[i + 1]), R(S))), Sub(R(out.rows[i].ce), Mul(AsymLine(in, in.probes[i]), R(S))))>>,
      <<"LoadsNonNegativeExclusiveAndAdditive", ok => \A i \in 1..n : out.rows[i].loadsOk>>,
      <<"LoadOnTheRightSide", ok => \A i \in 1..n :
             /\ (Region(in, in.probes[i]) = "heat" => out.rows[i].heatOnly)
